@@ -80,7 +80,29 @@ def default_models():
     def lift(fn):
         def f(I, x, *rest, **kw):
             if isinstance(x, SArr):
-                return x.map(lambda e: fn(I, e, *rest))
+                # definedness once, for a generic index (under the mask for a masked view); the
+                # element function is then evaluated without further case splits
+                from .arrays import MaskedView, _as_bool
+                k = I.ctx.fresh('k', z3.IntSort())
+                I.ctx.assume(z3.And(k >= 0, k < to_z3(x.length)))
+                if isinstance(x, MaskedView):
+                    mk = _as_bool(x.mask.at(k))
+                    if not isinstance(mk, bool):
+                        ok, _ = I.try_pure(lambda: fn(I, x.at(k), *rest), assuming=mk)
+                        if not ok:
+                            I.raise_('NonFiniteResult', 'function applied outside its domain under the mask')
+                    elif mk:
+                        fn(I, x.at(k), *rest)
+                else:
+                    fn(I, x.at(k), *rest)
+
+                def elem(e):
+                    mathfn.UNCHECKED[0] += 1
+                    try:
+                        return fn(I, e, *rest)
+                    finally:
+                        mathfn.UNCHECKED[0] -= 1
+                return x.map(elem)
             if isinstance(x, list):
                 return SArr.from_list(x).map(lambda e: fn(I, e, *rest))
             return fn(I, x, *rest)
@@ -111,9 +133,13 @@ def default_models():
     reg('numpy.float32', lambda I, x=0: I.builtins['float'].fn(x))
     reg('numpy.int64', lambda I, x=0: I.builtins['int'].fn(x))
     reg('numpy.int32', lambda I, x=0: I.builtins['int'].fn(x))
-    reg('numpy.isnan', lift(lambda I, x: False))      # reals are never NaN (undefined ops fork)
-    reg('numpy.isfinite', lift(lambda I, x: True))
-    reg('numpy.isinf', lift(lambda I, x: False))
+    def const_like(v):
+        def f(I, x):
+            return SArr(x.length, lambda k: v) if isinstance(x, SArr) else v
+        return f
+    reg('numpy.isnan', const_like(False))      # reals are never NaN (undefined operations fork instead)
+    reg('numpy.isfinite', const_like(True))
+    reg('numpy.isinf', const_like(False))
     reg('math.isnan', lambda I, x: False)
     reg('math.isfinite', lambda I, x: True)
 
@@ -152,8 +178,101 @@ def default_models():
             if r is None:
                 raise Unsupported('np.where on non-mergeable values')
             return r
+        from .arrays import _snap
+        c, a, b = _snap(c), _snap(a), _snap(b)
         return SArr(c.length, lambda k: _ite(_as_bool(c.at(k)), _elem(a, k), _elem(b, k)))
     reg('numpy.where', _where)
+
+    def _select(I, condlist, choicelist, default=0):
+        from .arrays import _elem, _ite, _as_bool, broadcast_len
+        from ..values import SymEnum
+        n = None
+        for c in condlist:
+            if isinstance(c, SArr):
+                n = c.length if n is None else n
+        if n is None:
+            raise Unsupported('np.select on scalars')
+
+        def conv(v):
+            # numpy stores StrEnum members as numpy.str_ values
+            if isinstance(v, EnumMember) and v.kind == 'str':
+                return SymEnum(v.cls, z3.IntVal(v.index), np_str=True)
+            return v
+
+        def fn(k):
+            r = conv(_elem(default, k))
+            for c, ch in reversed(list(zip(condlist, choicelist))):
+                r = _ite(_as_bool(_elem(c, k)), conv(_elem(ch, k)), r)
+                if isinstance(r, SymEnum):
+                    r.np_str = True
+            return r
+        return SArr(n, fn)
+    reg('numpy.select', _select)
+
+    def _isin(I, a, values, **kw):
+        from ..values import SymEnum
+        vals = I.iterate(values)
+
+        def one(e):
+            if isinstance(e, SymEnum):
+                ok = [m.index for m in e.cls.members if any(I.compare('==', m.value, v) is True or I.compare('==', m, v) is True for v in vals)]
+                return z3.Or(*[e.ord == i for i in ok]) if ok else False
+            r = False
+            for v in vals:
+                r = I.or_(r, I.compare('==', e, v))
+            return r
+        if isinstance(a, SArr):
+            return a.map(one)
+        return one(a)
+    reg('numpy.isin', _isin)
+
+    def _polyfit(I, x, y, deg):
+        """np.polyfit(x, y, 1): closed-form least squares (assumed contract, DESIGN 1.7)."""
+        if deg != 1:
+            raise Unsupported('polyfit degree != 1')
+        xs, ys = I.iterate(x), I.iterate(y)
+        n = len(xs)
+        sx = sy = sxx = sxy = 0
+        for a, b in zip(xs, ys):
+            sx = I.binop('Add', sx, a)
+            sy = I.binop('Add', sy, b)
+            sxx = I.binop('Add', sxx, I.binop('Mult', a, a))
+            sxy = I.binop('Add', sxy, I.binop('Mult', a, b))
+        den = I.binop('Sub', I.binop('Mult', n, sxx), I.binop('Mult', sx, sx))
+        slope = I.binop('Div', I.binop('Sub', I.binop('Mult', n, sxy), I.binop('Mult', sx, sy)), den)
+        icpt = I.binop('Div', I.binop('Sub', sy, I.binop('Mult', slope, sx)), n)
+        return (slope, icpt)
+    reg('numpy.polyfit', _polyfit)
+
+    def _interp(I, x, xp, fp, left=None, right=None):
+        """np.interp: piecewise linear, exact at nodes, clamped (or left/right) outside; increasing xp."""
+        from .arrays import _ite
+        xs, fs = I.iterate(xp), I.iterate(fp)
+        if len(xs) != len(fs) or not xs:
+            I.raise_('ValueError', 'fp and xp are not of the same length')
+
+        def one(v):
+            v = to_real(v) if is_sym(v) else v
+            lo = fs[0] if left is None else left
+            hi = fs[-1] if right is None else right
+            r = hi if right is not None else fs[-1]
+            # x >= xp[-1] -> fp[-1] (right only strictly beyond)
+            res = _ite(I.compare('>', v, xs[-1]), hi, fs[-1])
+            for i in range(len(xs) - 2, -1, -1):
+                x0, x1, f0, f1 = xs[i], xs[i + 1], fs[i], fs[i + 1]
+                same = I.compare('==', x0, x1)
+                if same is True:
+                    seg = f1
+                else:
+                    seg = I.binop('Add', f0, I.binop('Div', I.binop('Mult', I.binop('Sub', f1, f0), I.binop('Sub', v, x0)),
+                                                      I.binop('Sub', x1, x0)))
+                res = _ite(I.compare('<', v, x1), seg, res)
+            res = _ite(I.compare('<', v, xs[0]), lo, res)
+            return res
+        if isinstance(x, SArr):
+            return x.map(one)
+        return one(x)
+    reg('numpy.interp', _interp)
 
     def _array(I, x, dtype=None, **kw):
         if isinstance(x, SArr):
@@ -170,7 +289,7 @@ def default_models():
             return SArr(1, lambda k: x, scalar_like=True)
         raise Unsupported(f'np.array of {type(x).__name__}')
     reg('numpy.array', _array)
-    reg('numpy.asarray', _array)
+    reg('numpy.asarray', lambda I, x, dtype=None, **kw: x if isinstance(x, SArr) and x.kind == 'ndarray' else _array(I, x))
     reg('numpy.atleast_1d', _array)
 
     def _full(I, n, v, **kw):
